@@ -1,5 +1,227 @@
-"""Tier 3: runtime_builder / memc_tcp plumbing. Filled in later."""
+"""Tier 3: symbolic execution of the server construction path and of one iteration of the accept loop.
+
+create_memcrs_server -> MemcacheStoreBuilder::from_config -> create_current_thread_server / create_threadpool_server ->
+(per listener thread) MemcacheTcpServer::new -> [accept] -> get_client_config -> Client::new -> MemcacheBinaryConnection::new ->
+MemcacheBinaryCodec::new, with MemcrsArgs symbolic.  Thread spawning, tokio runtime builders, sockets and core pinning are
+models: a spawned closure / future is registered and then executed by the harness (listener threads) or inspected (futures).
+"""
+import z3
+from mirse.values import *
+from mirse.models import reg, reg_re
+from mirse.models.bytesm import Buf, Rope
+from mirse.models.tokio_io import Sock
+from mirse.models.std import call_closure
+from .common import mval
+from .world import mk, fld
+
+conn_limit = z3.BitVec('cfg_connection_limit', 32)
+item_limit = z3.BitVec('cfg_item_size_limit', 64)
+mem_limit = z3.BitVec('cfg_memory_limit', 64)
+backlog = z3.BitVec('cfg_backlog', 32)
+port = z3.BitVec('cfg_port', 16)
+
+
+def install_models(E):
+    if getattr(E, '_rt_models', False):
+        return
+    E._rt_models = True
+
+    @reg(E, 'std::net::SocketAddr::new')
+    def sockaddr(E, a, ctx):
+        return Agg('SocketAddr', [a[0], a[1]])
+
+    @reg(E, 'Byte::as_u64', 'byte_unit::Byte::as_u64')
+    def byte_as_u64(E, a, ctx):
+        v = a[0]
+        v = E.load(v) if isinstance(v, Ref) else v
+        return v.fields[0] if isinstance(v, Agg) else v
+
+    @reg(E, 'get_core_ids', 'core_affinity::get_core_ids')
+    def core_ids(E, a, ctx):
+        return some(Agg('Vec', [Agg('CoreId', [BV(0)])]))
+
+    @reg(E, '<Vec<CoreId> as Clone>::clone')
+    def vec_clone(E, a, ctx):
+        return E.load(a[0])
+
+    @reg(E, '<Vec<CoreId> as std::ops::Index<usize>>::index')
+    def vec_index(E, a, ctx):
+        v = E.load(a[0]) if isinstance(a[0], Ref) else a[0]
+        return Ref(E.alloc(v.fields[0]))
+
+    @reg(E, 'set_for_current', 'core_affinity::set_for_current')
+    def set_for_current(E, a, ctx):
+        return E.fresh('pinned', 'bool')
+
+    @reg(E, 'Thread::id', 'current', 'std::thread::current')
+    def thread_misc(E, a, ctx):
+        return Opaque('thread')
+
+    @reg(E, 'std::thread::spawn')
+    def thread_spawn(E, a, ctx):
+        E.rt['threads'].append(a[0])
+        E.events.append(('thread.spawn',))
+        return Opaque('JoinHandle')
+
+    @reg_re(E, r'^tokio::runtime::Builder::(new_current_thread|new_multi_thread)$')
+    def builder_new(E, a, ctx):
+        kind = 'current_thread' if 'current' in ctx.callee else 'multi_thread'
+        return Agg('RtBuilder', [Opaque(kind), None])
+
+    @reg_re(E, r'^tokio::runtime::Builder::(thread_name_fn|enable_all|worker_threads|max_blocking_threads)$')
+    def builder_opt(E, a, ctx):
+        b = a[0]
+        if isinstance(b, Ref):
+            if ctx.callee.split('::')[-1].startswith('worker_threads'):
+                v = E.load(b)
+                E.store(b, Agg('RtBuilder', [v.fields[0], a[1]]))
+            return b
+        return b
+
+    @reg(E, 'tokio::runtime::Builder::build')
+    def builder_build(E, a, ctx):
+        b = E.load(a[0]) if isinstance(a[0], Ref) else a[0]
+        rt = Agg('Runtime', [b.fields[0], b.fields[1], len(E.rt['runtimes'])])
+        E.rt['runtimes'].append(rt)
+        return ok(rt)
+
+    @reg(E, 'Runtime::block_on', 'tokio::runtime::Runtime::block_on')
+    def block_on(E, a, ctx):
+        rt = E.load(a[0]) if isinstance(a[0], Ref) else a[0]
+        E.rt['block_on'].append((rt, a[1]))
+        return ok(UNIT)
+
+    @reg(E, 'Runtime::spawn', 'tokio::runtime::Runtime::spawn')
+    def rt_spawn(E, a, ctx):
+        rt = E.load(a[0]) if isinstance(a[0], Ref) else a[0]
+        E.rt['rt_spawn'].append((rt, a[1]))
+        return Opaque('JoinHandle')
+
+    def reset(E):
+        E.rt = {'threads': [], 'runtimes': [], 'block_on': [], 'rt_spawn': []}
+    E.hooks.setdefault('reset', []).append(reset)
+    reset(E)
+
+
+def args_value(E, runtime_type, policy, threads):
+    rt_enum = Enum('RuntimeType', dict(E.enums['RuntimeType'])[runtime_type])
+    pol = Enum('EvictionPolicy', dict(E.enums['EvictionPolicy'])[policy])
+    return mk(E, 'MemcrsArgs', port=port, connection_limit=conn_limit, backlog_limit=backlog, memory_limit=mem_limit,
+              item_size_limit=Agg('Byte', [item_limit]), threads=BV(threads), verbose=BV(0, 8), listen_address=Opaque('ip'),
+              runtime_type=rt_enum, eviction_policy=pol)
+
+
+def server_of_future(E, fut):
+    """the MemcacheTcpServer a `run` future (or the async block wrapping it) was created for"""
+    v = fut
+    seen = 0
+    while seen < 6:
+        seen += 1
+        if isinstance(v, Coro):
+            if not v.upvars:
+                return None
+            v = v.upvars[0]
+            continue
+        if isinstance(v, Ref):
+            v = E.load(v)
+            continue
+        if isinstance(v, Agg) and v.ty == 'MemcacheTcpServer':
+            return v
+        return None
+    return None
 
 
 def run_plumbing(ck, tier):
-    ck.notes.append('plumbing harness not built yet')
+    E = ck.E
+    install_models(E)
+    create = E.fn_named('create_memcrs_server')
+    E.loop_bound = 8
+    for runtime_type in ('CurrentThread', 'MultiThread'):
+        for policy in ('None', 'Random'):
+            for threads in ((1, 2, 3) if tier != 'quick' else (1, 2)):
+                def h(E, runtime_type=runtime_type, policy=policy, threads=threads):
+                    E.assume(z3.ULE(item_limit, 1 << 30), z3.UGE(item_limit, 1024))
+                    timer = Ref(E.alloc(Agg('SystemTimer', [BV(0)])))
+                    E.call(create, [args_value(E, runtime_type, policy, threads), timer])
+                    servers = []
+                    # listener threads of the current-thread mode: run their closures now
+                    for clo in list(E.rt['threads']):
+                        f = E.fns[clo.ty[8:]]
+                        E.call(f, [clo])
+                    for rtm, fut in E.rt['block_on'] + E.rt['rt_spawn']:
+                        servers.append((rtm, server_of_future(E, fut)))
+                    facts = {'n': len(servers), 'all': all(s is not None for _, s in servers), 'cfg': [], 'stores': set(), 'sems': set(),
+                             'permits': BV(0), 'top': None, 'top_limit': None}
+                    if facts['all']:
+                        for rtm, s in servers:
+                            cfg = fld(E, s, 'MemcacheTcpServer', 'config')
+                            facts['cfg'].append(fld(E, cfg, 'MemcacheServerConfig', 'item_memory_limit') == z3.Extract(31, 0, item_limit))
+                            facts['cfg'].append(fld(E, cfg, 'MemcacheServerConfig', 'connection_limit') == conn_limit)
+                            facts['cfg'].append(fld(E, cfg, 'MemcacheServerConfig', 'listen_backlog') == backlog)
+                            memc = E.load(fld(E, s, 'MemcacheTcpServer', 'storage'))
+                            facts['stores'].add(fld(E, memc, 'MemcStore', 'store').cell)
+                            facts['sems'].add(fld(E, s, 'MemcacheTcpServer', 'limit_connections').cell)
+                        for c in facts['sems']:
+                            v = E.heap[c].fields[0]
+                            facts['permits'] = facts['permits'] + (z3.ZeroExt(64 - v.size(), v) if v.size() < 64 else v)
+                        if len(facts['stores']) == 1:
+                            top = E.heap[list(facts['stores'])[0]]
+                            facts['top'] = getattr(top, 'ty', None)
+                            if facts['top'] == 'RandomPolicy':
+                                facts['top_limit'] = fld(E, top, 'RandomPolicy', 'memory_limit')
+                    return facts
+                res = ck.explore(h)
+                label = f'{runtime_type}/{policy}/threads={threads}'
+                for p in res:
+                    if p.status != 'ok':
+                        ck.inconclusive.append(f'plumbing {label}: {p.status} {p.info}')
+                        continue
+                    F = p.out
+                    exp_listeners = threads if runtime_type == 'CurrentThread' else 1
+                    ck.obligation(f'plumbing {label}: one listener per thread (current-thread) / one listener (multi-thread)', p.pc,
+                                  z3.BoolVal(F['n'] == exp_listeners and F['all']), {}, None, [])
+                    if not F['n'] or not F['all']:
+                        continue
+                    ck.obligation(f'plumbing {label}: configured item limit, connection limit and backlog reach every listener', p.pc, z3.And(F['cfg']), {}, None, [])
+                    ck.obligation(f'plumbing {label}: one store object is shared by every listener', p.pc, z3.BoolVal(len(F['stores']) == 1), {}, None, [])
+                    want = 'RandomPolicy' if policy == 'Random' else 'MemoryStore'
+                    ck.obligation(f'plumbing {label}: the selected eviction policy object is the one serving requests', p.pc,
+                                  z3.BoolVal(F['top'] == want), {}, None, [])
+                    if F['top_limit'] is not None:
+                        ck.obligation(f'plumbing {label}: the configured memory limit reaches the policy', p.pc, F['top_limit'] == mem_limit, {}, None, [])
+                    # the connection limit is per process: the permits of all semaphores together are the configured limit
+                    R = {'per-thread-semaphore': z3.BoolVal(runtime_type == 'CurrentThread' and threads > 1)}
+
+                    def on_w(m, where, threads=threads):
+                        return native_limit(ck, threads)
+                    ck.obligation(f'plumbing {label}: the permits of all listeners together are the configured connection limit', p.pc,
+                                  F['permits'] == z3.ZeroExt(32, conn_limit), R, on_w, [])
+                    ck.cover(f'plumbing {runtime_type}', True)
+                    ck.sample({'config': label, 'listeners': F['n'], 'semaphores': len(F['sems']), 'stores': len(F['stores']), 'top': F['top']})
+    native_config_validation(ck)
+
+
+def native_config_validation(ck):
+    """the real create_memcrs_server started with CLI arguments: the configured connection limit is what is enforced"""
+    scs = [({'kind': 'server', 'args': ['--runtime-type', 'current-thread', '--threads', '2', '--connection-limit', '1'], 'conns': 12}, 1),
+           ({'kind': 'server', 'args': ['--runtime-type', 'multi-thread', '--threads', '2', '--connection-limit', '2'], 'conns': 6}, 2),
+           ({'kind': 'server', 'args': ['--runtime-type', 'current-thread', '--threads', '1', '--connection-limit', '3', '--eviction-policy', 'random'], 'conns': 6}, 3)]
+    for (sc, want), out in zip(scs, ck.replay([s for s, _ in scs])):
+        if out.get('served') == want:
+            ck.replays_ok += 1
+        else:
+            ck.replays_bad += 1
+            ck.inconclusive.append(f'native whole-server run {sc["args"]}: {out} (expected {want} connections served)')
+
+
+def native_limit(ck, threads):
+    """two MemcacheTcpServer instances built the way create_current_thread_server builds one per thread, both with connection
+    limit 1, behind one port: two idle connections are both served (effective limit = threads x limit)"""
+    sc = {'kind': 'server', 'args': ['--runtime-type', 'current-thread', '--threads', str(threads), '--connection-limit', '1'], 'conns': 6 * threads}
+    out = ck.replay([sc])[0]
+    if 'error' in out:
+        return None, 'native whole-server scenario failed: ' + str(out['error']), sc
+    served = out['served']
+    desc = f"memcrsd --runtime-type current-thread --threads {threads} --connection-limit 1: every listener thread builds its own MemcacheTcpServer and " \
+           f"therefore its own semaphore; the real server answers {served} of {6 * threads} simultaneously open connections"
+    return (True if served > 1 else None), desc, sc
